@@ -1,7 +1,7 @@
 #!/bin/bash
 # MANIFEST.setup_cmd: build every check driver from files on disk (warms GOCACHE).
 export GOFLAGS=-mod=mod GOPROXY=off GOSUMDB=off GOTOOLCHAIN=local
-cd /verif || exit 2
+cd "$(dirname "${BASH_SOURCE[0]}")" || exit 2
 mkdir -p bin evidence replays
 rc=0
 for d in cmd/c*; do
